@@ -457,6 +457,15 @@ EXTRA_TEXT = {
          "shaping by -n/-s, and the C15 theorems lifted to cli_main, colour and --yaml-output included. Stream c15argv: random "
          "argument vectors (flag mixes, clusters, --k=v, unknown flags, missing values, --, --args/--jsonargs, files, -f, -L, GOJQ_COLORS) "
          "through cli.VerifRun judged by the extracted cli_main: derived job, stdout bytes, stderr, status."),
+ "C04": (" THIRD WAVE: the optimisation passes themselves are theorems of coq/c01vm2 (run under this check as the C04vm sub-check, "
+         "props/C01vm.v), for every program of its fragment F3 (closures, user functions, recursion, objects, destructuring, "
+         "computed index/slices, interpolation): C01vm_tailrec_sound (with and without optimizeTailRec the code has the same "
+         "observation; opcallrec frame replacement and the jump form), C01vm_functions_peephole_sound (optimizeCodeOps incl. jump "
+         "threading is sound for ANY code under three side conditions that C01vm_side_conditions proves of the compiler's output), "
+         "C01vm_final_compile_correct (the FINAL code, after constant folding of arrays/objects, argument inlining, both passes, has "
+         "the observation of the optimisation-free denotation). New generator block computednav (navigation from computed values in "
+         "path / update / delete contexts: the order of the type check and the path-integrity check must not depend on whether the "
+         "index is compiled as opindex or as a call)."),
  "C16": (" Long raw line oracle in every tier: -R / -Rs / -nR with lines of 4095..1 MiB bytes around every buffer size (4 KiB, 16 KiB "
          "window, 64 KiB scanner limit), each followed by further lines."),
  "C19": (" The native-vs-definition stream includes a native that returns its argument slice itself (a retained slice must not see "
@@ -465,6 +474,8 @@ EXTRA_TEXT = {
 NOTE_REPLACE = {
  "C03": [("PARTIAL: C03_meets_doc_full / C03_rep_independent_full for ALL natives are Definitions, not theorems (the remaining natives are judged against Spec.v on every run);",
           "Further hypothesis pf_sign (ParseFloat of '-'+r is the negation of ParseFloat r) where literals are negated. PARTIAL: C03_meets_doc_full / C03_rep_independent_full for ALL natives are Definitions, not theorems (75 natives proved, 18 on a stated sub-domain, 2 model-only: fromjson, delpaths; the others are judged against Spec.v on every run);")],
+ "C04": [("PARTIAL: rewrites on function arguments and bodies (R3/R4) are exercised, not proved; tail-call elimination and jump threading are exercised only.",
+          "PARTIAL: the source rewrites on function arguments and bodies (R3/R4) are exercised, not proved identities of the reference semantics; tail-call elimination, the peephole pass with jump threading, folding and inlining are proved for the fragment of coq/c01vm2 and exercised outside it (paths, `?//`, builtins written in jq); the constant-path `=` shortcut is observable (known findings F3, F5).")],
  "C07": [(" One-shot iterators for wrong variable counts are not modelled.", "")],
  "C08": [("PARTIAL: driver termination is not proved (never ran out of fuel 100(n+3) in the correspondence); type assertions inside grammar actions and the VM/natives are covered by the crash search and by C01/C03 models, not by a whole-pipeline theorem.",
           "props/C08b, C08d and C08e depend on the Reals axioms Flocq brings into the natives model (sig_not_dec, sig_forall_dec, functional_extensionality_dep, classic). PARTIAL: the whole-pipeline statement C08_full_on_fragment covers compiler and VM only for the fragment of coq/c01vm2 (outside it: crash search and the C01 correspondence) and rests on the seams listed in coq/integ/NoCrash.v (token numbering, lexer/driver interleaving, natives called with accepted arities on hole-free values: argued, not proved).")],
